@@ -191,7 +191,7 @@ class C15(Check):
         out.label("fault:" + fault, "call:" + calls[pos], "n=%d" % len(calls), "end:" + case["end"])
         out.sample = dict(case)
         env.state["k"] += 1
-        work = os.path.join(env.scratch, "c15-%d" % env.state["k"])
+        work = env.tmpdir("c15-")
         src = os.path.join(work, "src")
         os.makedirs(src)
         filters = {"copy": [{"id": G.F_COPY}], "lzma2": [{"id": G.F_LZMA2, "preset": 0}], "default": None}[case["filter"]]
